@@ -56,9 +56,7 @@ theorem readLoop_eofScript (P : List (Nat × Nat)) : ∀ (b : PBuf) (payload : L
         unfold min3; omega
       rw [hstep]
       simp only [List.nil_append, hn, List.drop_length]
-      have e1 : ((if payload.length = 0 ∧ (1 : Nat) = 0 then 1 else 1) : Nat) = 1 := by
-        split <;> rfl
-      rw [e1, if_pos (by omega)]
+      rw [if_pos (by omega)]
       exact ⟨Or.inr rfl, Or.inr rfl, Or.inr (Or.inr ⟨rfl, hrest⟩)⟩
   | cons x P' ih =>
     intro b payload m rest hlen hP hm hpl hrest
@@ -74,32 +72,19 @@ theorem readLoop_eofScript (P : List (Nat × Nat)) : ∀ (b : PBuf) (payload : L
       have hcs := chunkSize_pos
       rw [hstep]
       simp only [List.cons_append]
-      by_cases hp0 : payload.length = 0
-      · -- `(0, nil)`: reported as io.EOF
-        have hn : min3 mx (min (c - Facts.margin) b.cfg.bufferSize - b.data.length) payload.length
-            = 0 := by unfold min3; omega
-        simp only [hn, true_and, if_true, ne_eq, Nat.succ_ne_zero, not_false_eq_true,
-          List.drop_zero]
-        have hpn : payload = [] := List.eq_nil_of_length_eq_zero hp0
-        refine ⟨Or.inr hpn, Or.inr rfl, Or.inr (Or.inr ⟨hpn, ?_⟩)⟩
-        intro y hy
-        simp only [List.mem_append, List.mem_cons] at hy
-        rcases hy with hy | hy | hy
-        · have := (hP' y hy).1; omega
-        · subst hy; exact Nat.le_refl _
-        · exact hrest y hy
-      · have hn1 : 1 ≤ min3 mx (min (c - Facts.margin) b.cfg.bufferSize - b.data.length)
-            payload.length := by unfold min3; omega
-        have hn2 : b.data.length + min3 mx
-            (min (c - Facts.margin) b.cfg.bufferSize - b.data.length) payload.length
-            ≤ b.cfg.bufferSize := by unfold min3; omega
-        generalize min3 mx (min (c - Facts.margin) b.cfg.bufferSize - b.data.length)
-          payload.length = n at hn1 hn2
-        have hne : ¬ (n = 0 ∧ True) := by omega
-        simp only [hne, if_false, ne_eq, not_true_eq_false]
-        apply ih _ _ m rest _ hP' hm _ hrest
-        · simp only [List.length_append, List.length_take]; omega
-        · simp only [List.length_drop, List.length_cons] at hpl ⊢; omega
+      -- code 0 always continues; with the payload exhausted the answer is `(0, nil)`
+      have hn1 : payload.length = 0 ∨ 1 ≤ min3 mx
+          (min (c - Facts.margin) b.cfg.bufferSize - b.data.length) payload.length := by
+        unfold min3; omega
+      have hn2 : b.data.length + min3 mx
+          (min (c - Facts.margin) b.cfg.bufferSize - b.data.length) payload.length
+          ≤ b.cfg.bufferSize := by unfold min3; omega
+      generalize min3 mx (min (c - Facts.margin) b.cfg.bufferSize - b.data.length)
+        payload.length = n at hn1 hn2
+      simp only [ne_eq, not_true_eq_false, if_false]
+      apply ih _ _ m rest _ hP' hm _ hrest
+      · simp only [List.length_append, List.length_take]; omega
+      · simp only [List.length_drop, List.length_cons] at hpl ⊢; omega
 
 /-- **`ReadFrom` with a truthful reader** stops only because the buffer is full or the payload
     exhausted, only with `ErrFullBuffer` or io.EOF, and the reader stays truthful -/
@@ -128,7 +113,7 @@ theorem truthR_readFrom {b : PBuf} (hlen : b.data.length ≤ b.cfg.bufferSize) {
       · rw [g] at hx; cases hx
       · rw [g]; simp [hx]
     refine ⟨Or.inr hpl, ?_, Or.inr (Or.inr ⟨hpl, fun x hx => hd2 x (hsub x hx)⟩)⟩
-    rcases hcase with ⟨g, _⟩ | ⟨g, _⟩ | ⟨mx, ec, g1, g2, _⟩
+    rcases hcase with ⟨g, _⟩ | ⟨g, _⟩ | ⟨mx, ec, g1, hec, g2⟩
     · exact Or.inl g
     · exact Or.inr g
     · right
@@ -136,7 +121,7 @@ theorem truthR_readFrom {b : PBuf} (hlen : b.data.length ≤ b.cfg.bufferSize) {
       have := hd2 _ hmem
       simp only [] at this
       rw [g2]
-      apply errOfCode_le_one <;> split <;> omega
+      exact errOfCode_le_one ec hec this
 
 /-- two `ReadFrom` calls on buffers that differ at most in `cap`, with truthful readers carrying
     the same payload: same view, same rest, same count; both errors are `ErrFullBuffer` or io.EOF -/
